@@ -79,8 +79,8 @@ func ShapesOf(mechs ...string) []Pat {
 // nullable-loop/lookaround successors, overlapping and disjoint). keep = 1/keep of
 // the product is returned (chosen by hash with seed); keep <= 1 returns all.
 func LoopSucc(keep, seed int) []Pat {
-	loops := []string{`a*`, `a+`, `a*?`, `a+?`, `[^a]*`, `[^a]+`, `[^a]*?`, `[ab]*`, `[ab]+?`, `\w*`, `.*`, `.*?`, `a{1,2}`, `[^a]{0,2}`, `\d+`, `(?:ab)*`}
-	succs := []string{`a`, `b`, `[^a]`, `[^b]`, `[ab]`, `[bc]`, `ab`, `ba`, `$`, `\b`, `a?`, `b?`, `a*`, `b*`, `[^a]?`, `[ab]?`, `a?b`, `b?a`, `(?:a|b)`, `\n?`, `(?=a)`, `(?!a)`, `a{0,2}b`, `\d`, `\w`, `(a)`, `(?:a|[^a])`, `a|b`}
+	loops := []string{`a*`, `a+`, `a*?`, `a+?`, `[^a]*`, `[^a]+`, `[^a]*?`, `[ab]*`, `[ab]+?`, `\w*`, `.*`, `.*?`, `a{1,2}`, `[^a]{0,2}`, `\d+`, `(?:ab)*`, `\W+`, `-+`, `\D*`}
+	succs := []string{`a`, `b`, `[^a]`, `[^b]`, `[ab]`, `[bc]`, `ab`, `ba`, `$`, `\b`, `\B`, `a?`, `b?`, `a*`, `b*`, `[^a]?`, `[ab]?`, `a?b`, `b?a`, `(?:a|b)`, `\n?`, `(?=a)`, `(?!a)`, `a{0,2}b`, `\d`, `\w`, `(a)`, `(?:a|[^a])`, `a|b`}
 	tails := []string{``, `b`, `c`, `$`, `\w`}
 	var out []Pat
 	for _, l := range loops {
@@ -90,7 +90,8 @@ func LoopSucc(keep, seed int) []Pat {
 				if s == `a|b` {
 					p = l + `(?:` + s + `)` + t
 				}
-				if keep > 1 && hashStr(p, seed)%uint64(keep) != 0 {
+				// thinning keeps every (loop, successor) pair with the empty tail and one further tail
+				if keep > 1 && t != `` && hashStr(l+s, seed)%uint64(len(tails)-1) != uint64(indexOf(tails, t)-1) {
 					continue
 				}
 				out = append(out, FromText(p, 0, "shape:loopsucc"))
@@ -112,7 +113,8 @@ func SuccLoop(keep, seed int) []Pat {
 		for _, s := range preds {
 			for _, h := range heads {
 				p := h + s + l
-				if keep > 1 && hashStr(p, seed)%uint64(keep) != 0 {
+				// thinning keeps every (predecessor, loop) pair with the empty head and, for keep <= 4, one further head
+				if keep > 1 && h != `` && (keep > 4 || hashStr(s+l, seed)%uint64(len(heads)-1) != uint64(indexOf(heads, h)-1)) {
 					continue
 				}
 				out = append(out, FromText(p, 0, "shape:succloop"))
@@ -155,6 +157,15 @@ func AltPrefix(keep, seed int) []Pat {
 		}
 	}
 	return out
+}
+
+func indexOf(xs []string, x string) int {
+	for i, y := range xs {
+		if y == x {
+			return i
+		}
+	}
+	return -1
 }
 
 func sprintf2(f, a, b string) string {
